@@ -15,6 +15,7 @@ PLAN = {
     "C02": {"level": "exploration", "units": [
         unit("disc", "TestC02", 700, 12000, replay="TestReplayC02", shrinktime="30s"),
         unit("side", "TestC02Listener", 300, 3000, replay="TestReplayC02Listener", seed_off=900),
+        unit("side", "TestC02Concurrent", 15, 400, seed_off=930),
         unit("sys", "TestC02Sys", 3, 20, replay="TestReplayC02Sys", seed_off=950, shrinktime="30s", workers={"quick": 8, "thorough": 16})]},
     "C03": {"level": "exploration", "units": [
         unit("loop", "TestC03", 500, 8000, replay="TestReplayC03", shrinktime="30s"),
@@ -43,7 +44,9 @@ PLAN = {
         unit("side", "TestC09OldFile", 150, 2000, seed_off=600),
         unit("sys", "TestC09Sys", 3, 20, replay="TestReplayC09Sys", seed_off=950, shrinktime="30s", workers={"quick": 8, "thorough": 16})]},
     "C10": {"level": "exploration", "units": [unit("side", "TestC10", 600, 12000, replay="TestReplayC10")]},
-    "C11": {"level": "exploration", "units": [unit("cfgh", "TestC11", 600, 10000, replay="TestReplayC11", shrinktime="30s")]},
+    "C11": {"level": "exploration", "units": [
+        unit("cfgh", "TestC11", 600, 10000, replay="TestReplayC11", shrinktime="30s"),
+        unit("side", "TestC11Concurrent", 15, 400, seed_off=930)]},
     "C12": {"level": "exploration", "units": [
         unit("side", "TestC12", 1000, 6000, replay="TestReplayC12"),
         unit("side", "TestC12Concurrent", 100, 1500, seed_off=400),
